@@ -71,11 +71,11 @@ func validateJSONPatches(patches []byte) error {
 			return fmt.Errorf("%s: invalid path", patch.JSONPatch)
 		}
 
-		if strings.HasPrefix(path, "/"+document.ServiceProperty) {
+		if addresses(path, document.ServiceProperty) {
 			return fmt.Errorf("%s: cannot modify services", patch.JSONPatch)
 		}
 
-		if strings.HasPrefix(path, "/"+document.PublicKeyProperty) {
+		if addresses(path, document.PublicKeyProperty) {
 			return fmt.Errorf("%s: cannot modify public keys", patch.JSONPatch)
 		}
 
@@ -90,11 +90,11 @@ func validateJSONPatches(patches []byte) error {
 				return fmt.Errorf("%s: invalid from", patch.JSONPatch)
 			}
 
-			if strings.HasPrefix(from, "/"+document.ServiceProperty) {
+			if addresses(from, document.ServiceProperty) {
 				return fmt.Errorf("%s: cannot modify services", patch.JSONPatch)
 			}
 
-			if strings.HasPrefix(from, "/"+document.PublicKeyProperty) {
+			if addresses(from, document.PublicKeyProperty) {
 				return fmt.Errorf("%s: cannot modify public keys", patch.JSONPatch)
 			}
 		}
@@ -108,4 +108,10 @@ func validateJSONPatches(patches []byte) error {
 // first service without being recognised as a protected location.
 func isJSONPointer(pointer string) bool {
 	return pointer == "" || strings.HasPrefix(pointer, "/")
+}
+
+// addresses checks whether the JSON pointer addresses the given top-level member or something inside it. A
+// member whose name merely starts with the same characters (e.g. 'serviceProvider') is a different member.
+func addresses(pointer, member string) bool {
+	return pointer == "/"+member || strings.HasPrefix(pointer, "/"+member+"/")
 }
